@@ -1,7 +1,7 @@
 """C14 — generated types with doubles have a lawful total order, equality and hash (partial)."""
 from ..facts import ty_adt, tystr, walk_ty, place_local, place_proj, op_place, strip_refs
 from ..cfg import CFG, Tracer
-from .. import dt, instance, minterp
+from .. import dt, instance, minterp, inline
 
 DOPS = "conjure_object::private::DoubleOps"
 OF = "ordered_float::OrderedFloat"
@@ -80,13 +80,16 @@ def run(ctx):
             ctx.check(len(cm) == 1 and len(some) == 1, "R14.2", b.loc(), f"{who}|some-cmp", f"{who} must be Some(self.cmp(other))", instance=f"{who} = Some(cmp)")
             continue
         if b.name in ("eq", "cmp", "hash"):
+            if is_dk:
+                # DoubleKey may delegate to <f64 as DoubleOps>::{eq,cmp,hash} (checked here as well): look through that call
+                b = inline.expand(c, b, depth=1, pred=lambda cb, nm=b.name: cb.trait == DOPS and tystr(cb.self_ty or {}) == "f64" and cb.name == nm)
             wraps = [s for _, _, s in b.stmts() if s["r"].get("agg") == "adt" and s["r"]["adt"] == OF]
             calls = [t for _, t in b.calls() if t["call"]["name"] == b.name and t["call"].get("substs") and ty_adt(strip_refs(t["call"]["substs"][0])) == OF]
             need = 1 if b.name == "hash" else 2
             ok = len(wraps) == need and len(calls) == 1
             canon.append((who, ok))
             ctx.check(ok, "R14.2", b.loc(), f"{who}|canonical", f"{who} must wrap its operand(s) in OrderedFloat and use OrderedFloat's {b.name} (wraps {len(wraps)}, calls {len(calls)})", instance=f"{who} via OrderedFloat")
-    ctx.floor("R14.2", "canonical comparison methods", len(canon), 6)
+    ctx.floor("R14.2", "canonical comparison methods", len(canon), 3)
     # ---------------- R14.3 containers
     for b in c.bodies:
         if b.trait != DOPS or b.kind != "assoc_fn" or tystr(b.self_ty or {}) == "f64":
@@ -172,7 +175,7 @@ def run(ctx):
                 txt = q["text"].replace(" ", "").replace("\n", "")
                 if "educe(" not in txt:
                     continue
-                where = f"{fn['file']}:{q['line']}"
+                where = f"{fn['file'].split('/repo/')[-1]}:{q['line']}"
                 if "method(" in txt:
                     field_t += 1
                     ok = all(f"{tr}(method(conjure_object::private::DoubleOps::{m}))" in txt for tr, m in (("PartialEq", "eq"), ("Ord", "cmp"), ("Hash", "hash")))
@@ -182,7 +185,17 @@ def run(ctx):
                     ctx.check(under, "R14.5", where, f"{fn['name']}|field-template|guard", f"{fn['name']}: the field template is emitted under {q['conds']}, expected the is_double predicate", instance=f"{fn['name']}: emitted under is_double")
                 elif all(x in txt for x in ("PartialEq", "Eq", "PartialOrd", "Ord", "Hash")):
                     type_t += 1
-                    under = any(("has_double" in cnd or "is_double" in cnd) and cnd.startswith("if") for cnd in q["conds"])
+                    import re as _re
+
+                    def mentions(cnd):
+                        """the condition (or the `let` the tested variable is bound to) consults has_double / is_double"""
+                        if "has_double" in cnd or "is_double" in cnd:
+                            return True
+                        return any(("has_double" in (fn["lets"].get(v) or "") or "is_double" in (fn["lets"].get(v) or "")) for v in _re.findall(r"[A-Za-z_]\w*", cnd))
+                    under = any(mentions(cnd) and cnd.startswith("if") and not cnd.replace(" ", "").startswith("if!") for cnd in q["conds"])
+                    if not under and not q["conds"]:
+                        ctx.note(f"R14.5 {fn['name']}: type-level educe emitted under no syntactic condition (decision taken elsewhere); instance decided by R14.6")
+                        continue
                     ctx.check(under, "R14.5", where, f"{fn['name']}|type-template|guard", f"{fn['name']}: the type-level educe is emitted under {q['conds']}, expected has_double / is_double", instance=f"{fn['name']}: type educe under has_double")
         ctx.floor("R14.5", "educe field templates", field_t, 3)
         ctx.floor("R14.5", "educe type templates", type_t, 3)
